@@ -14,13 +14,14 @@ Src6 == {"uni", "ll", "mcast", "unspec", "loop"}
 Dst6 == {"own", "own2", "own-ll", "other", "all-nodes", "sol-node", "mc-other", "unspec", "loop"}
 Protos == {"echo", "icmp-err", "udp-open", "udp-bound", "udp-closed", "syn-open", "syn-bound", "syn-closed", "ack-closed", "rst-closed", "unknown",
            "ns", "mld-query", "igmp-query"}
-Corrupt == {"none", "ip-hdr", "l4", "udp0"}
+\* "opts": a clean IPv4 header carrying four octets of options; "ip-opt": the same with one bit of the options flipped
+Corrupt == {"none", "ip-hdr", "l4", "udp0", "opts", "ip-opt"}
 
 Rows == { r \in [m : Media, ld : LinkDst, v : {4, 6}, s : Src4 \cup Src6, d : Dst4 \cup Dst6, p : Protos, c : Corrupt] :
             /\ (r.m = "ip" => r.ld = "own")
             /\ (r.v = 4 => r.s \in Src4 /\ r.d \in Dst4)
             /\ (r.v = 6 => r.s \in Src6 /\ r.d \in Dst6)
-            /\ (r.c = "ip-hdr" => r.v = 4)
+            /\ (r.c \in {"ip-hdr", "opts", "ip-opt"} => r.v = 4)
             /\ (r.c = "udp0" => r.p \in {"udp-open", "udp-closed"})
             /\ (r.c = "l4" => r.p # "unknown")
             \* queries: the version that has them, and only where they mean something (a solicitation for an own address, a
